@@ -300,6 +300,11 @@ def frame_astype(eng, df, args, kwargs):
         c = df.cols[k]
         if dtype_of(c) == OBJ or dst == OBJ or dst.kind not in "iufb" or dtype_of(c).kind not in "iufb":
             raise Unsupported(f"DataFrame.astype {dtype_of(c)} -> {dst}")
+        if dtype_of(c).kind == "f" and dst.kind == "u" and not eng.spec_mode:
+            # pandas (astype_float_to_int_nansafe) refuses a negative value for an unsigned target; numpy's own astype does not
+            j = z3.Int(fresh_name("aj"))
+            if not eng.branch(eng.sbool(z3.ForAll([j], z3.Implies(_rng(j, zint(c.n)), z3.Select(c.arr, j) >= 0)))):
+                raise ProgExc(ValueError, f"Cannot losslessly cast from {dtype_of(c)} to {dst}")
         new = cast_col(eng, c, dst) if needs_cast(dtype_of(c), dst) or kind_of_dt(dst) != c.kind else SArr(c.arr, c.n, c.kind, name=k, dtype=dst)
         new.name = k
         out.cols[k] = new
